@@ -20,6 +20,10 @@ let side (x : sexp) : (cfg * nat option list, string) Stdlib.result =
           match cfg_of_prog (as_name perf) q with
           | Ok (g, es) -> Stdlib.Ok (g, es)
           | Err m -> Stdlib.Error (string_of_cl m)))
+  | L [ Atom "pops"; rs ] ->
+      (* pseudo code between the handlers and the label passes *)
+      let rs = as_pops rs in
+      Stdlib.Ok (cfg_of_pops rs, pop_entries rs)
   | _ -> raise (Bad "side expected")
 
 let jobs (o : obs) =
